@@ -241,6 +241,7 @@ def cases(tier):
         cs.append(Case(f"stack_{agg}", "case_stack", {"ntr": b["stack_ntr"], "agg": agg}))
     cs.append(Case("stack_nanmean_default", "case_stack_nan", {"ntr": b["stack_ntr"]}))
     cs.append(Case("stack_with_header", "case_stack_header", {"ntr": b["stack_ntr"]}))
+    cs.append(Case("stack_mean_single_trace", "case_stack", {"ntr": 1, "agg": "mean"}))
     for window in ("flat", "hanning", "hamming", "bartlett", "blackman"):
         for wl in (3, 4, 5) if tier == "quick" else (3, 4, 5, 6, 7, 8):
             cs.append(Case(f"rolling_{window}_{wl}", "case_rolling", {"n": 7 if tier == "quick" else 9, "wl": wl, "window": window}))
